@@ -96,7 +96,8 @@ Cat ==
   ("audit_location_incomplete" :> M({}, "form", FALSE, "kind")) @@
   ("external_instance_twice" :> M({}, "form", FALSE, "ident")) @@
   ("search_list_shared"      :> M({"sel1"}, "survey", FALSE, "ident")) @@
-  ("loop_without_list"       :> M({}, "form", FALSE, "kind"))
+  ("loop_without_list"       :> M({}, "form", FALSE, "kind")) @@
+  ("choice_extra_column_translated" :> M({}, "form", FALSE, "ident"))
 Muts == DOMAIN Cat
 
 \* an end row qualifies as top-level when it closes a top-level section (depth 1 in front of it)
